@@ -21,7 +21,7 @@ From Bifrost.model Require Import Base KinesisRetry.
 From Bifrost.proofs Require Import KinesisRetryProofs.
 
 (* (1) written => every record of the batch had no error code in some call of the trace.
-   Hypothesis: the answers obey the AWS contract.  Outside it the statement is false, see
+   Premise: the answers obey the AWS contract.  Outside it the statement is false, see
    C11_written_all_accepted_outside_contract_refuted below. *)
 Theorem C11_written_all_accepted : forall n ctx recs script tr cx,
   transport_with_retry n ctx recs script = (tr, RWritten, cx) ->
